@@ -77,9 +77,13 @@ def confirm_one(pid, n, d, seed_root):
     return res
 
 
-def cmd_confirm(seed_root):
-    results = []
+def cmd_confirm(seed_root, only=None):
+    cpath = os.path.join(seed_root, "confirm.json")
+    results = json.load(open(cpath)) if os.path.exists(cpath) else []
     for pid, n, d in variants(seed_root):
+        if only and pid not in only and "%s-%s" % (pid, n) not in only:
+            continue
+        results = [r for r in results if r["id"] != "%s-%s" % (pid, n)]
         r = confirm_one(pid, n, d, seed_root)
         print(r["id"], "confirmed" if r.get("confirmed") else "NOT CONFIRMED", {k: r.get(k) for k in ("applies", "suite_pass_with_change", "demo_fails_with_change", "demo_passes_without_change")}, flush=True)
         results.append(r)
@@ -128,6 +132,6 @@ def cmd_matrix(seed_root, scratch, only=None, checks=None):
 
 if __name__ == "__main__":
     if sys.argv[1] == "confirm":
-        cmd_confirm(sys.argv[2])
+        cmd_confirm(sys.argv[2], only=set(sys.argv[3:]) or None)
     elif sys.argv[1] == "matrix":
         cmd_matrix(sys.argv[2], sys.argv[3], only=set(sys.argv[4:]) or None)
